@@ -97,6 +97,13 @@ def gen_case(rng):
             layers.append(('m', [(S('t'), c)]))
         if a[0] == 'm':
             base.append((S('sm'), S('<%s|%s>' % ('${t:k2}', '${t:k3}'))))
+        if a[0] == 'm' and rng.random() < 0.35:
+            # the layers of t are given by reference, two of them by the very same reference (or through an alias of
+            # it): members are still embedded one by one
+            base.append((S('dflt'), b))
+            base.append((S('tuned'), S('${dflt}')))
+            layers[0] = ('m', [(S('t'), S('${dflt}'))])
+            layers.insert(1, ('m', [(S('t'), S(rng.choice(['${dflt}', '${tuned}'])))]))
     # literal pieces as (written, rendered): dollars and backslashes that are not markers stay as
     # they are, an escaped marker loses its backslash
     pre_w, pre = rng.choice([('', ''), ('x', 'x'), ('pre ', 'pre '), ('é=', 'é='), ('"', '"'), ('{', '{'),
